@@ -166,4 +166,7 @@ theorem shape_id_valid (f : File) : Gen.idValid.eval (idEnv f.id) = some (hasVal
 theorem shape_entry (lib : List Nat) (run : Nat) (f : File) :
     entryG Gen.entryOps lib run f = some (upgrade lib run f) := rfl
 
+theorem shape_link (run : Nat) (daid : String) :
+    newLinkG Gen.linkAttrs Gen.dimOps run daid = some (newLink run daid) := rfl
+
 end Nix.Upgrade.Lemmas
